@@ -171,7 +171,13 @@ pub fn install_panic_hook() {
         } else {
             "<non-string panic>".to_string()
         };
-        LAST_PANIC.with(|p| *p.borrow_mut() = Some((loc, msg)));
+        // keep the first panic since the last take: schedulers re-panic with their own message
+        LAST_PANIC.with(|p| {
+            let mut p = p.borrow_mut();
+            if p.is_none() {
+                *p = Some((loc, msg));
+            }
+        });
         if !QUIET.with(|q| q.get()) {
             default(info);
         }
@@ -226,7 +232,13 @@ pub fn run_caught<P: Prop>(scn: &P::Scn, st: &mut RunStats) -> RunOutcome {
             if is_harness_loc(&loc) {
                 RunOutcome::HarnessError(format!("harness panic at {}: {}", loc, msg))
             } else if P::panics_are_violations() {
-                RunOutcome::Violation(Violation::new("panic", norm_loc(&loc), format!("panic at {}: {}", norm_loc(&loc), msg)))
+                if loc.contains("shuttle") {
+                    // the scheduler's own verdicts: deadlock (every thread blocked) or step limit
+                    let class = if msg.contains("deadlock") { "deadlock" } else if msg.contains("exceeded max_steps") || msg.contains("max_steps") { "step-limit" } else { "scheduler-panic" };
+                    RunOutcome::Violation(Violation::new(class, "shuttle", format!("{}: {}", class, msg.chars().take(300).collect::<String>())))
+                } else {
+                    RunOutcome::Violation(Violation::new("panic", norm_loc(&loc), format!("panic at {}: {}", norm_loc(&loc), msg)))
+                }
             } else {
                 RunOutcome::SutPanic(format!("{}: {}", norm_loc(&loc), msg))
             }
